@@ -36,16 +36,21 @@ theorem isText_false_of_kind {pv : Value} (h : pv.isElement = true ∨ pv.isDocu
 
 /-- With consolidation on and a text `node`, a text `prev` makes `add_consolidate` merge. -/
 theorem addConsolidate_prev_true {f : Forest} {node p : Nat} {a ps : Str} (next : Option Nat)
-    (hc : f.consolidation = true) (hn : f.textOf node = some a) (hp : f.textOf p = some ps) :
+    (hc : f.consolidation = true) (hn : f.textOf node = some a) (hp : f.textOf p = some ps)
+    (hne : p ≠ node) :
     (f.addConsolidate node (some p) next).2 = true := by
-  unfold addConsolidate
+  rw [addConsolidate_eq_old, selfPrev_of_ne (by simpa using hne)]
+  unfold addConsolidateOld
   simp [hc, hn, hp]
 
 /-- With consolidation on and a text `node`, a text `next` makes `add_consolidate` merge. -/
 theorem addConsolidate_next_true {f : Forest} {node n : Nat} {a ns : Str} (prev : Option Nat)
-    (hc : f.consolidation = true) (hn : f.textOf node = some a) (hx : f.textOf n = some ns) :
+    (hc : f.consolidation = true) (hn : f.textOf node = some a) (hx : f.textOf n = some ns)
+    (hne : n ≠ node) :
     (f.addConsolidate node prev (some n)).2 = true := by
-  unfold addConsolidate
+  rw [addConsolidate_eq_old, selfNext_of_ne (by simpa using hne)]
+  generalize f.selfPrev node prev = prev
+  unfold addConsolidateOld
   simp only [hc, Bool.not_true, Bool.false_eq_true, if_false, hn, hx]
   cases prev with
   | none => rfl
@@ -117,14 +122,14 @@ theorem append_inv {f : Forest} (hi : f.Inv) (p c : Nat) : (f.append p c).1.Inv 
         obtain ⟨a, hta⟩ := textOf_of_value? hcv hct
         by_cases hnn : n.value.isNormal = true
         · rw [if_pos hnn] at hlc
-          refine ⟨?_, ?_⟩
-          · intro e; apply hlast; rw [hlc, e]; simp
+          have hne : n.handle ≠ c := by intro e; apply hlast; rw [hlc, e]; simp
+          refine ⟨hne, ?_⟩
           · cases hnt : n.value.isText with
             | false => rfl
             | true =>
               exfalso
               obtain ⟨s, hts⟩ := textOf_of_value? hnv hnt
-              have := addConsolidate_prev_true none hcons hta hts
+              have := addConsolidate_prev_true none hcons hta hts hne
               rw [← hlc, h2] at this
               cases this
         · refine ⟨?_, ?_⟩
